@@ -6,7 +6,8 @@
 
    A session is a list of calls over {open, load_context(description), start_streaming(cap),
    stop_streaming, close, params access}; a failure plan [pl i j] says whether the j-th fallible
-   DeviceControl / PayloadStream operation of call i fails (any set of failures, not only one).
+   DeviceControl / PayloadStream operation of call i fails and with a fault of which class ([Some cls]:
+   Io, Timeout, Disconnected, Busy, NotOpened, InvalidData, ...; any set of failures, not only one).
    [trace_of (run true pl cs)] is the list of effects on the device, the stream handle and the
    GenApi context, in order.  Every prefix of a session is a session, so a statement about
    "the trace / the final state of every session" is a statement about every reachable point. *)
@@ -57,7 +58,7 @@ Print Assumptions C16_single_loop.
 Theorem C16_start_in_streaming : forall cap pl s,
   loop_running s = true ->
   run_call true (CStart cap) pl s =
-  {| r_res := Err E_IN_STREAMING; r_effs := []; r_nops := 0; r_failed := None; r_cam := s |}.
+  {| r_res := Err E_IN_STREAMING; r_effs := []; r_nops := 0; r_atts := []; r_failed := None; r_cam := s |}.
 Proof. exact (start_in_streaming true). Qed.
 Print Assumptions C16_start_in_streaming.
 
@@ -65,7 +66,7 @@ Print Assumptions C16_start_in_streaming.
 Theorem C16_start_without_context : forall cap pl s,
   loop_running s = false -> ctxt s = None ->
   run_call true (CStart cap) pl s =
-  {| r_res := Err E_CTXT_MISSING; r_effs := []; r_nops := 0; r_failed := None; r_cam := s |}.
+  {| r_res := Err E_CTXT_MISSING; r_effs := []; r_nops := 0; r_atts := []; r_failed := None; r_cam := s |}.
 Proof. exact start_without_context. Qed.
 Print Assumptions C16_start_without_context.
 
@@ -104,7 +105,7 @@ Print Assumptions C16_flag_matches.
    close: close returns Ok, the loop is stopped, TLParamsLocked = 0, the stream is disabled, the
    device is not acquiring, both handles are closed and no register value is cached. *)
 Theorem C16_close_clean : forall pl cs,
-  (forall i j, pl i j = false) -> Forall good_call cs ->
+  (forall i j, pl i j = None) -> Forall good_call cs ->
   clean (final (run true pl (cs ++ [CClose]))) /\
   exists rs r, run true pl (cs ++ [CClose]) = rs ++ [r] /\ r_res r = Ok (-1).
 Proof. exact close_clean. Qed.
@@ -122,38 +123,63 @@ Print Assumptions C16_close_clean_v0_refuted.
 
 Theorem C16_start_without_context_v0 : forall cap s,
   loop_running s = false -> ctxt s = None ->
-  let r := run_call false (CStart cap) (fun _ => false) s in
+  let r := run_call false (CStart cap) (fun _ => None) s in
   r_res r = Err E_CTXT_MISSING /\ r_effs r = [EnableStreaming] /\ stream_enabled (r_cam r) = true.
 Proof. exact start_without_context_v0. Qed.
 Print Assumptions C16_start_without_context_v0.
 
-(* Failure stops the call: in any state, if operation j is the first the plan fails and the call
-   reaches it, the call returns the error of exactly that operation, its effects are exactly the
-   first j effects of the failure-free execution (nothing of the later sub-operations), and j + 1
-   operations were attempted. *)
-Theorem C16_failure_stops : forall c plc s j,
-  first_fail plc j ->
-  (j < r_nops (run_call true c (fun _ => false) s))%nat ->
-  exists e, nth_error (r_effs (run_call true c (fun _ => false) s)) j = Some e /\
-    r_failed (run_call true c plc s) = Some e /\
-    r_res (run_call true c plc s) = Err (err_of e) /\
-    r_effs (run_call true c plc s) = firstn j (r_effs (run_call true c (fun _ => false) s)) /\
+(* Failure stops the call: in any state, if operation j is the first the plan fails — with a fault of
+   ANY class cls (Io, Timeout, Disconnected, Busy, NotOpened, ...) — and the call reaches it, the call
+   returns the error of exactly that operation carrying exactly that class, its effects are exactly the
+   first j effects of the failure-free execution (nothing of the later sub-operations), the device log
+   is those j accesses followed by the ONE failed attempt, and j + 1 operations were attempted (no
+   second attempt of the failed access, no later access). *)
+Theorem C16_failure_stops : forall c plc s j cls,
+  first_fail plc j cls ->
+  (j < r_nops (run_call true c (fun _ => None) s))%nat ->
+  exists e, nth_error (r_effs (run_call true c (fun _ => None) s)) j = Some e /\
+    r_failed (run_call true c plc s) = Some (e, cls) /\
+    r_res (run_call true c plc s) = Err (err_of e cls) /\
+    r_effs (run_call true c plc s) = firstn j (r_effs (run_call true c (fun _ => None) s)) /\
+    r_atts (run_call true c plc s) = firstn j (r_effs (run_call true c (fun _ => None) s)) ++ [e] /\
     r_nops (run_call true c plc s) = S j.
 Proof. exact (failure_stops true). Qed.
 Print Assumptions C16_failure_stops.
 
+(* Every device access is attempted at most once: in every session under every failure plan, the
+   device log of every call (open, load_context, start, stop, close, params access) has no repeated
+   access; it is exactly the accesses that succeeded — the call's effects on the device and the stream
+   handle — followed, when one failed, by that single failed attempt; its length is the number of
+   operations attempted. *)
+Theorem C16_access_once : forall pl cs r,
+  In r (run true pl cs) ->
+  NoDup (r_atts r) /\ r_atts r = filter is_access (r_effs r) ++ failed_att r /\
+  length (r_atts r) = r_nops r.
+Proof. exact (attempts_session true). Qed.
+Print Assumptions C16_access_once.
+
+(* The same for one call from ANY state (not only reachable ones). *)
+Theorem C16_access_once_call : forall c plc s,
+  NoDup (r_atts (run_call true c plc s)) /\
+  r_atts (run_call true c plc s) =
+    filter is_access (r_effs (run_call true c plc s)) ++ failed_att (run_call true c plc s) /\
+  length (r_atts (run_call true c plc s)) = r_nops (run_call true c plc s).
+Proof. exact (attempts_call true). Qed.
+Print Assumptions C16_access_once_call.
+
 (* A failure planned at an operation the call never reaches changes nothing. *)
 Theorem C16_unreached_failure : forall c plc s,
-  (forall k, (k < r_nops (run_call true c (fun _ => false) s))%nat -> plc k = false) ->
-  run_call true c plc s = run_call true c (fun _ => false) s.
+  (forall k, (k < r_nops (run_call true c (fun _ => None) s))%nat -> plc k = None) ->
+  run_call true c plc s = run_call true c (fun _ => None) s.
 Proof. exact (unreached_failure true). Qed.
 Print Assumptions C16_unreached_failure.
 
-(* In every session, a call in which an operation failed returns that operation's error, and
-   the failed operation is the last one it attempted. *)
-Theorem C16_failure_session : forall pl cs r e,
-  In r (run true pl cs) -> r_failed r = Some e ->
-  r_res r = Err (err_of e) /\ exists k j, pl k j = true /\ r_nops r = S j.
+(* In every session, a call in which an operation failed with a fault of class cls returns that
+   operation's error with that class (a failed access ends the call with its own error), and the failed
+   operation is the last one it attempted. *)
+Theorem C16_failure_session : forall pl cs r e cls,
+  In r (run true pl cs) -> r_failed r = Some (e, cls) ->
+  r_res r = Err (err_of e cls) /\ exists k j, pl k j = Some cls /\ r_nops r = S j.
 Proof. exact (failure_session true). Qed.
 Print Assumptions C16_failure_session.
 
@@ -166,7 +192,7 @@ Print Assumptions C16_panic_only_cap0.
 
 Theorem C16_start_cap0 : forall plc s c0,
   loop_running s = false -> ctxt s = Some c0 -> n_tl c0 = true -> n_start c0 = true ->
-  (forall j, plc j = false) ->
+  (forall j, plc j = None) ->
   r_res (run_call true (CStart 0) plc s) = Panic /\
   r_effs (run_call true (CStart 0) plc s) = [EnableStreaming; SetTLParamsLocked true; AcqStart] /\
   loop_running (r_cam (run_call true (CStart 0) plc s)) = false.
@@ -187,8 +213,8 @@ Proof. exact session_example. Qed.
 Print Assumptions C16_session_example.
 
 Theorem C16_failure_example :
-  let rs := run true (plan_of [(2, 2)%nat]) [COpen; CLoad xml_good; CStart 3] in
-  map r_res rs = [Ok (-1); Ok (-1); Err E_GENAPI_DEVICE] /\
+  let rs := run true (plan_of [(2%nat, 2%nat, 1)]) [COpen; CLoad xml_good; CStart 3] in
+  map r_res rs = [Ok (-1); Ok (-1); Err (E_GENAPI_DEVICE + 1)] /\
   trace_of rs = [CtrlOpen; StrmOpen; GenApiFetch; LoadCtxt true true true;
                  EnableStreaming; SetTLParamsLocked true] /\
   loop_running (final rs) = false.
